@@ -6,7 +6,7 @@ From Arche Require Import Model.Base Model.Pool Model.Filter Model.World Model.O
   Proofs.Tables Proofs.Bits Proofs.Store Proofs.Graph Proofs.Atomic Proofs.WorldInv
   Proofs.Frame Proofs.StepFrame Proofs.RelGraph Proofs.RelWorld Proofs.RelRefine Proofs.QueryExact Proofs.CacheInv
   Proofs.EventsExact Proofs.SpecDet Proofs.IlenInv Proofs.BatchMove Proofs.BatchExchange Proofs.BatchSetRel Proofs.BatchRemove
-  Proofs.BatchQ Proofs.BatchEvents Proofs.ResetInv Proofs.EventReplay.
+  Proofs.BatchQ Proofs.BatchEvents Proofs.ResetInv Proofs.EventReplay Proofs.BatchCached Proofs.BatchEventsCached.
 
 (** Events of pairwise distinct entities, each changing only its own shadow entry. *)
 Lemma replay_flat_map (evf : Entity -> list event) (upd : Entity -> option N -> option N) L : forall S,
@@ -55,16 +55,17 @@ Proof.
 Qed.
 
 (** Batch.Add / Remove / Exchange, Relations.ExchangeBatch. *)
-Theorem replay_batch_exchange w A S f add rem rel w' n evs :
-  R w A -> cache_ok w -> w_listener w = Some lall -> shadow_ok A S ->
+Theorem replay_batch_exchange w A S (fa : farg) l f add rem rel w' n evs :
+  R w A -> cache_ok w -> arg_tables w fa = Some l -> NoDup l -> (forall tid, tid ∈ l <-> tid ∈ World.get_tables w f) ->
+  w_listener w = Some lall -> shadow_ok A S ->
   Forall (fun id => id < length (as_reg A)) add -> (add <> [] \/ rem <> []) ->
-  op_batch_exchange w (FPlain f) add rem rel = (w', Ok (VNat n), evs) ->
-  shadow_ok (a_map A (table_ents w (World.get_tables w f)) (fun a => a_exchange (as_reg A) a add rem rel)) (sh_replay S evs).
+  op_batch_exchange w fa add rem rel = (w', Ok (VNat n), evs) ->
+  shadow_ok (a_map A (table_ents w l) (fun a => a_exchange (as_reg A) a add rem rel)) (sh_replay S evs).
 Proof.
-  intros HR C Hlis HS Hadd Hne H.
-  destruct (batch_exchange_refines w A f add rem rel w' n evs HR C Hadd Hne H) as (_ & Hnd & Hmem & HR' & _).
-  rewrite (batch_exchange_events_exact w A f add rem rel w' n evs HR C Hadd Hne Hlis H).
-  set (L := table_ents w (World.get_tables w f)) in *.
+  intros HR C Harg Hndl Hsel Hlis HS Hadd Hne H.
+  destruct (batch_exchange_refines_arg w A fa l f add rem rel w' n evs HR C Harg Hndl Hsel Hadd Hne H) as (_ & Hnd & Hmem & HR' & _).
+  rewrite (batch_exchange_events_exact_arg w A fa l f add rem rel w' n evs HR C Harg Hndl Hsel Hadd Hne Hlis H).
+  set (L := table_ents w l) in *.
   set (g := fun a => a_exchange (as_reg A) a add rem rel) in *.
   apply (shadow_a_map A S); [done| |intros e He; by apply Hmem in He as [? _]].
   intros e.
@@ -108,13 +109,14 @@ Proof.
 Qed.
 
 (** Batch.SetRelation / Relations.SetBatch: TargetChanged events only. *)
-Theorem replay_batch_set_relation w A S f rid T w' n evs :
-  R w A -> cache_ok w -> w_listener w = Some lall -> shadow_ok A S ->
-  op_batch_set_relation w (FPlain f) rid T = (w', Ok (VNat n), evs) ->
+Theorem replay_batch_set_relation w A S (fa : farg) l f rid T w' n evs :
+  R w A -> cache_ok w -> arg_tables w fa = Some l -> NoDup l -> (forall tid, tid ∈ l <-> tid ∈ World.get_tables w f) ->
+  w_listener w = Some lall -> shadow_ok A S ->
+  op_batch_set_relation w fa rid T = (w', Ok (VNat n), evs) ->
   forall L, shadow_ok (a_map A L (fun a => mkA (a_mask a) T (a_vals a))) (sh_replay S evs).
 Proof.
-  intros HR C Hlis HS H L.
-  rewrite (batch_set_relation_events_exact w A f rid T w' n evs HR C Hlis H).
+  intros HR C Harg Hndl Hsel Hlis HS H L.
+  rewrite (batch_set_relation_events_exact_arg w A fa l f rid T w' n evs HR C Harg Hndl Hsel Hlis H).
   intros e. rewrite replay_noop.
   - rewrite (HS e). unfold a_map. cbn [as_live as_ents].
     pose proof (assoc_get_a_map (as_ents A) L (fun a => mkA (a_mask a) T (a_vals a)) e) as Hag. cbn beta in Hag. rewrite Hag.
@@ -124,17 +126,18 @@ Proof.
 Qed.
 
 (** Batch.RemoveEntities: one removal event per entity. *)
-Theorem replay_batch_remove w A S f w' n evs L' :
-  R w A -> cache_ok w -> w_listener w = Some lall -> shadow_ok A S ->
-  (forall e, e ∈ table_ents w (World.get_tables w f) -> (egen e < gen_max)%N) ->
-  op_remove_entities w (FPlain f) = (w', Ok (VNat n), evs) ->
-  (forall e, e ∈ table_ents w (World.get_tables w f) <-> e ∈ L') ->
+Theorem replay_batch_remove w A S (fa : farg) l f w' n evs L' :
+  R w A -> cache_ok w -> arg_tables w fa = Some l -> NoDup l -> (forall tid, tid ∈ l <-> tid ∈ World.get_tables w f) ->
+  w_listener w = Some lall -> shadow_ok A S ->
+  (forall e, e ∈ table_ents w l -> (egen e < gen_max)%N) ->
+  op_remove_entities w fa = (w', Ok (VNat n), evs) ->
+  (forall e, e ∈ table_ents w l <-> e ∈ L') ->
   shadow_ok (a_remove_all A L') (sh_replay S evs).
 Proof.
-  intros HR C Hlis HS Hgen H HL'.
-  destruct (batch_remove_refines w A f w' n evs HR C Hgen H) as (_ & Hnd & Hmem & _ & _).
-  rewrite (batch_remove_events_exact w A f w' n evs HR C Hlis Hgen H).
-  set (L := table_ents w (World.get_tables w f)) in *.
+  intros HR C Harg Hndl Hsel Hlis HS Hgen H HL'.
+  destruct (batch_remove_refines_arg w A fa l f w' n evs HR C Harg Hndl Hsel Hgen H) as (_ & Hnd & Hmem & _ & _).
+  rewrite (batch_remove_events_exact_arg w A fa l f w' n evs HR C Harg Hndl Hsel Hlis Hgen H).
+  set (L := table_ents w l) in *.
   destruct (a_remove_all_fields L' A) as (Fl & _ & _).
   intros e.
   rewrite (replay_flat_map (rm_ev w)
@@ -255,9 +258,9 @@ From Arche Require Import Proofs.BatchCached Proofs.CreateWith Proofs.BatchCreat
 
 Definition op_preEB (w : world) (A : astate) (o : op) : Prop :=
   match o with
-  | OBatchExchange false (FPlain _) add _ _ => ids_reg A add /\ returns_ok w o
-  | OBatchSetRel false (FPlain _) _ _ => returns_ok w o
-  | OBatchRemove (FPlain _) => (forall e, e ∈ as_live A -> (egen e < gen_max)%N) /\ returns_ok w o
+  | OBatchExchange false _ add _ _ => ids_reg A add /\ returns_ok w o
+  | OBatchSetRel false _ _ _ => returns_ok w o
+  | OBatchRemove _ => (forall e, e ∈ as_live A -> (egen e < gen_max)%N) /\ returns_ok w o
   | OBBatch b _ _ => ids_reg A (b_ids b) /\ b_vals b = None /\ returns_ok w o
   | _ => op_preE A o
   end.
@@ -267,11 +270,7 @@ Proof. induction es as [|e r IH]; intros A; [done|]. unfold BatchCreateWith.a_se
 
 Lemma op_preEB_pre4 w A o : op_preEB w A o -> op_pre4 w A o.
 Proof.
-  destruct o; simpl; try done; try (intros H; exact H).
-  - by intros (? & _ & ?).
-  - by destruct q, a.
-  - by destruct q, a.
-  - by destruct a.
+  destruct o; simpl; try done; try (intros H; exact H); try (by intros (? & _ & ?)); by destruct q.
 Qed.
 
 Theorem replay_step_b w A S o :
@@ -302,49 +301,65 @@ Proof.
     assert (Hc : b_comps b = []) by (unfold b_comps; by rewrite Hv). rewrite Hc, a_sets_all_nil.
     by apply (replay_batch_new w A S count b target w' es evs).
   - (* OBatchExchange *)
-    destruct q; [done|]. destruct a as [f|id]; [|done]. destruct Hpre as (Hids & [v Hok]).
+    destruct q; [done|]. destruct Hpre as (Hids & [v Hok]).
     split; [|split; [by apply Hl'|done]].
     unfold r in *. simpl in Hok |- *.
-    destruct (op_batch_exchange w (FPlain f) add rem rel) as [[w' out] evs] eqn:H. simpl in Hok |- *. subst out.
+    destruct (op_batch_exchange w a add rem rel) as [[w' out] evs] eqn:H. simpl in Hok |- *. subst out.
     assert (Hn : exists n, v = VNat n).
-    { unfold op_batch_exchange, batch_result in H. destruct (exchange_batch_nn w (FPlain f) add rem rel) as [[[[w1 n] segs]|]|[]]; try done.
+    { unfold op_batch_exchange, batch_result in H. destruct (exchange_batch_nn w a add rem rel) as [[[[w1 n] segs]|]|[]]; try done.
       injection H as _ <- _. by eexists. }
     destruct Hn as [n ->].
     destruct (decide (add = [] /\ rem = [])) as [[-> ->]|Hne].
     + assert (evs = []) as ->.
       { unfold op_batch_exchange, exchange_batch_nn in H. destruct (is_locked w); [done|]. destruct (negb _); [done|].
         destruct (bool_decide _); [done|]. simpl in H. injection H as _ _ <-. unfold ev_batch. by destruct (w_listener w). }
-      done.
+      by destruct (arg_filter w a).
     + assert (Hne' : add <> [] \/ rem <> []).
       { destruct add; [|by left]. destruct rem; [|by right]. exfalso. by apply Hne. }
-      pose proof (replay_batch_exchange w A S f add rem rel w' n evs HR C Hlis HS Hids Hne' H) as HS'.
-      destruct (batch_exchange_refines w A f add rem rel w' n evs HR C Hids Hne' H) as (_ & _ & Hmem & _ & _).
-      assert (Hsame : forall e, e ∈ table_ents w (World.get_tables w f) <-> e ∈ a_sel A f) by (intros e; by rewrite Hmem, (a_sel_exact w A f HR)).
+      assert (Hl : exists l, arg_tables w a = Some l).
+      { unfold op_batch_exchange, exchange_batch_nn in H. destruct (is_locked w); [done|]. destruct (negb _); [done|].
+        destruct (arg_tables w a) as [l|]; [by eexists|]. destruct add, rem; try done. exfalso; by apply Hne. }
+      destruct Hl as [l Hl]. destruct (arg_filter_some w a l Hl) as [f Hf]. rewrite Hf.
+      destruct (arg_ok w A a l f HR C Hl Hf) as [Hndl Hsel].
+      pose proof (replay_batch_exchange w A S a l f add rem rel w' n evs HR C Hl Hndl Hsel Hlis HS Hids Hne' H) as HS'.
+      destruct (batch_exchange_refines_arg w A a l f add rem rel w' n evs HR C Hl Hndl Hsel Hids Hne' H) as (_ & _ & Hmem & _ & _).
+      assert (Hsame : forall e, e ∈ table_ents w l <-> e ∈ a_sel A f) by (intros e; by rewrite Hmem, (a_sel_exact w A f HR)).
       rewrite (a_map_ext_mem A _ _ _ Hsame) in HS'.
       destruct add; [destruct rem; [exfalso; by apply Hne|]|]; done.
   - (* OBatchSetRel *)
-    destruct q; [done|]. destruct a as [f|id]; [|done]. destruct Hpre as [v Hok].
+    destruct q; [done|]. destruct Hpre as [v Hok].
     split; [|split; [by apply Hl'|done]].
     unfold r in *. simpl in Hok |- *.
-    destruct (op_batch_set_relation w (FPlain f) rid t) as [[w' out] evs] eqn:H. simpl in Hok |- *. subst out.
+    destruct (op_batch_set_relation w a rid t) as [[w' out] evs] eqn:H. simpl in Hok |- *. subst out.
     assert (Hn : exists n, v = VNat n).
-    { unfold op_batch_set_relation, batch_result in H. destruct (set_relation_batch_nn w (FPlain f) rid t) as [[[[w1 n] segs]|]|[]]; try done.
+    { unfold op_batch_set_relation, batch_result in H. destruct (set_relation_batch_nn w a rid t) as [[[[w1 n] segs]|]|[]]; try done.
       injection H as _ <- _. by eexists. }
-    destruct Hn as [n ->]. by apply (replay_batch_set_relation w A S f rid t w' n evs).
+    destruct Hn as [n ->].
+    assert (Hl : exists l, arg_tables w a = Some l).
+    { unfold op_batch_set_relation, set_relation_batch_nn in H. destruct (is_locked w); [done|]. destruct (negb _); [done|].
+      destruct (arg_tables w a) as [l|]; [by eexists|done]. }
+    destruct Hl as [l Hl]. destruct (arg_filter_some w a l Hl) as [f Hf]. rewrite Hf.
+    destruct (arg_ok w A a l f HR C Hl Hf) as [Hndl Hsel].
+    by apply (replay_batch_set_relation w A S a l f rid t w' n evs).
   - (* OBatchRemove *)
-    destruct a as [f|id]; [|done]. destruct Hpre as (Hgen & [v Hok]).
+    destruct Hpre as (Hgen & [v Hok]).
     split; [|split; [by apply Hl'|done]].
     unfold r in *. simpl in Hok |- *.
-    destruct (op_remove_entities w (FPlain f)) as [[w' out] evs] eqn:H. simpl in Hok |- *. subst out.
-    assert (Hn : exists n, v = VNat n).
-    { unfold op_remove_entities in H. destruct (is_locked w); [done|]. cbn [arg_tables] in H.
-      destruct (locks_lock _ _) as [[lk b]|]; [|done]. destruct (foldl _ _ _). injection H as _ <- _. by eexists. }
-    destruct Hn as [n ->].
-    assert (Hgen' : forall e, e ∈ table_ents w (World.get_tables w f) -> (egen e < gen_max)%N).
+    destruct (op_remove_entities w a) as [[w' out] evs] eqn:H. simpl in Hok |- *. subst out.
+    assert (Hl : exists l n, arg_tables w a = Some l /\ v = VNat n).
+    { unfold op_remove_entities in H. destruct (is_locked w); [done|].
+      destruct (arg_tables w a) as [l|]; [|done]. destruct (locks_lock _ _) as [[lk b]|]; [|done].
+      destruct (foldl _ _ _). injection H as _ <- _. by eexists _, _. }
+    destruct Hl as (l & n & Hl & ->). destruct (arg_filter_some w a l Hl) as [f Hf]. rewrite Hf.
+    destruct (arg_ok w A a l f HR C Hl Hf) as [Hndl Hsel].
+    assert (Hgen' : forall e, e ∈ table_ents w l -> (egen e < gen_max)%N).
     { intros e Hin. apply Hgen. pose proof HR as [K _ _ _].
-      destruct (get_tables_exact w (as_live A) f (r2_ok _ _ _ K)) as [_ HL]. by apply HL in Hin as [? _]. }
-    destruct (batch_remove_refines w A f w' n evs HR C Hgen' H) as (_ & _ & Hmem & _ & _).
-    apply (replay_batch_remove w A S f w' n evs (a_sel A f) HR C Hlis HS Hgen' H).
+      assert (HLmem : forall e, e ∈ table_ents w l <-> (e ∈ as_live A /\ ent_matches w f e)).
+      { apply (table_ents_exact w (as_live A) (r2_ok _ _ _ K)). intros tid t0 Ht Hne0. rewrite Hsel, get_tables_contrib.
+        by apply (selected_exact w (as_live A) true f (r2_ok _ _ _ K)). }
+      by apply HLmem in Hin as [? _]. }
+    destruct (batch_remove_refines_arg w A a l f w' n evs HR C Hl Hndl Hsel Hgen' H) as (_ & _ & Hmem & _ & _).
+    apply (replay_batch_remove w A S a l f w' n evs (a_sel A f) HR C Hl Hndl Hsel Hlis HS Hgen' H).
     intros e. by rewrite Hmem, (a_sel_exact w A f HR).
 Qed.
 
@@ -401,4 +416,30 @@ Example demo_replay_b_result :
   sh_replay [] (events_of w demo_replay_b_ops) =
     [(mkE 6 0, 5%N); (mkE 5 0, 5%N); (mkE 2 1, 4%N); (mkE 4 0, 3%N); (mkE 3 0, 3%N); (mkE 1 0, 0%N)] /\
   length (events_of w demo_replay_b_ops) = 15.
+Proof. vm_compute. done. Qed.
+
+(** Non-vacuity with a REGISTERED filter as batch argument. *)
+Definition demo_replay_c_setup : list op :=
+  [ORegister 10 false false; ORegister 11 true false; ORegister 12 false false; OCacheRegister (FAll 1);
+   OSetListener (Some lall)].
+Definition demo_replay_c_ops : list op :=
+  [ONew [0]; ONew [0; 2]; ONew [2]; OBatchExchange false (FCached 0) [] [0] None; ONew [0];
+   OBatchRemove (FCached 0)].
+Example demo_replay_c_pre :
+  let w := run (world_init 2 2 64) demo_replay_c_setup in
+  let A := snd (arun (world_init 2 2 64) a_init demo_replay_c_setup) in
+  w_listener w = Some lall /\ pre_runEB w A demo_replay_c_ops.
+Proof.
+  split; [by vm_compute|]. unfold demo_replay_c_ops. cbn [pre_runEB].
+  repeat (split; [first
+    [ split; [intros e He; vm_compute in He; repeat (apply elem_of_cons in He as [->|He]); try reflexivity; by apply elem_of_nil in He
+             |vm_compute; by eexists]
+    | vm_compute; repeat split; try (repeat (apply List.Forall_cons; [simpl; lia|]); apply List.Forall_nil); try reflexivity;
+      try (by eexists); repeat (first [apply elem_of_list_here | apply elem_of_list_further]) ]|]).
+  exact I.
+Qed.
+Example demo_replay_c_result :
+  let w := run (world_init 2 2 64) demo_replay_c_setup in
+  sh_replay [] (events_of w demo_replay_c_ops) = [(mkE 2 0, 4%N); (mkE 1 0, 0%N); (mkE 3 0, 4%N)] /\
+  length (events_of w demo_replay_c_ops) = 7.
 Proof. vm_compute. done. Qed.
